@@ -260,7 +260,7 @@ func C18(tier string) int {
 	execNo := 0
 	outcomes := map[string]int{}
 	_ = outcomes
-	ex := &vsched.Explorer{Bound: bound, MaxSteps: 4000, MaxExecs: 400000}
+	ex := &vsched.Explorer{Bound: bound, MaxSteps: 4000, MaxExecs: 400000, ReplayEvery: 25}
 	var cur struct {
 		db     *boltz.DbImpl
 		path   string
@@ -272,6 +272,7 @@ func C18(tier string) int {
 	ex.KeyFn = func() string {
 		return strings.Join(cur.begin, "|") + "#" + strings.Join(cur.tuples, "|") + fmt.Sprint(len(cur.errs))
 	}
+	ex.Cleanup = func() { _ = cur.db.Close() }
 	ex.Body = func() func() {
 		execNo++
 		cur.path = dir + "/x.db"
@@ -351,6 +352,11 @@ func C18(tier string) int {
 		}
 	}
 	ex.Explore()
+	rep.Count("replay_determinism_checks", int64(ex.Replays))
+	if len(ex.ReplayDiffs) > 0 {
+		rep.Set("replay_divergences"+"[isolation]", ex.ReplayDiffs)
+		rep.Capped("a replayed choice sequence did not reproduce its schedule: nondeterminism the harness does not own (no verdict drawn from it)")
+	}
 	rep.Count("states", int64(ex.Executions))
 	rep.Set("schedules_isolation", ex.Executions)
 	rep.Set("alternatives_pruned_by_state_key_isolation", ex.Pruned)
